@@ -117,10 +117,13 @@ P = {
         "complete data never refused; refusal <=> declared not relevant, end to end."),
         tech=TECH_MIX),
     "C15": dict(cat="other", text=(
-        "Deductive part: syntactic frame obligations over all 120+ functions with dataset / scheme / ranking inputs: no "
-        "statement mutates an input-reachable object (may-alias taint analysis; a finding is 'undecided', never a "
-        "violation). Bounded: deep snapshots before / after every algorithm, score, description, partition, derived "
-        "dataset; all operation sequences of length <= 2 (<= 3) on shared vs fresh objects; twice-same."), tech=TECH_MIX),
+        "Deductive part: syntactic frame obligations over all 170 functions with dataset / scheme / ranking inputs or "
+        "with an algorithm / partition / consensus object as `self`: no statement mutates an input-reachable object, and "
+        "no method of an algorithm class other than its constructor writes to the object, so that no state is carried "
+        "from one call to the next (may-alias taint analysis; a finding is 'undecided', never a violation). Bounded: deep "
+        "snapshots before / after every algorithm, score, description, partition, derived dataset; all operation "
+        "sequences of length <= 2 (<= 3) on shared vs fresh objects; twice-same; an algorithm object used before on "
+        "related inputs vs a fresh one."), tech=TECH_MIX),
     "C16": dict(cat="other", text=(
         "Proved: Ranking.__init__ gives positions[x] = 1 + size of earlier buckets, domain = union of buckets, refuses "
         "overlapping buckets; in Dataset._analyse_rankings (run by the constructor and by every mutator) one iteration "
